@@ -136,6 +136,8 @@ def check(ctx, args):
                 ctx.fail(f[2], detail[:400], {"program": f[0], "replay_dir": os.path.dirname(rp),
                                               "source": open(os.path.join(d, "pipeline.mro")).read(),
                                               "spec": open(os.path.join(d, "spec.json")).read()})
+        flaky = [l for l in good if " flaky=" in l]
+        ctx.coverage["runtime_failures_not_repeated_on_rerun"] = [l[:80] for l in flaky]
         ctx.coverage.update({"runtime_programs": len(lines), "runtime_ok": len(good), "runtime_jobs": jobs,
                              "runtime_arguments_validated": nargs, "runtime_generator": run_stats})
     ctx.coverage.update({
